@@ -87,6 +87,29 @@ def impl_main(mode, fin, fout):
                         exp_meta["model_params"] = ""
                     if m2.bf != m.bf or m2.daughters != m.daughters or dict(m2.metadata) != exp_meta:
                         viol.append("mode round trip loses information")
+            elif k == "dd" and c["ctor"] == "hist":
+                # a final state changed in place through the mapping interface it inherits: what it reports after every step
+                d = DaughtersDict(list(c["names"]))
+                res = [[[[a, b] for a, b in d.items()], d.to_list(), len(d)]]
+                for op in c["ops"]:
+                    if op[0] == "set":
+                        d[op[1]] = op[2]
+                    elif op[0] == "del":
+                        del d[op[1]]
+                    elif op[0] == "pop":
+                        d.pop(op[1])
+                    elif op[0] == "popitem":
+                        d.popitem()
+                    elif op[0] == "clear":
+                        d.clear()
+                    elif op[0] == "setdefault":
+                        d.setdefault(op[1], op[2])
+                    else:
+                        d.update(list(op[1]))
+                    res.append([[[a, b] for a, b in d.items()], d.to_list(), len(d)])
+                    if mode == "oracle" and (d.to_list() != sorted(x for a, b in d.items() for x in [a] * b) or d.to_string() != " ".join(d.to_list())):
+                        viol.append("a final state changed in place does not report its daughters (canonical order, multiplicities)")
+                        break
             elif k == "dd":
                 if c["ctor"] == "string":
                     d = DaughtersDict(c["text"])
@@ -239,6 +262,39 @@ def main():
                 cases.append({"kind": "dd", "ctor": "pdgids", "ids": [rng.choice(ids) for _ in range(rng.randint(1, 6))]})
         for i in ids if args.tier == "thorough" else ids[::5]:
             cases.append({"kind": "dd", "ctor": "pdgids", "ids": [i, i]})
+        # final states changed in place (the mapping interface DaughtersDict inherits), observed after every step
+        for _ in range(150 if args.tier == "quick" else 1500):
+            names = [rng.choice(gen_chains.REAL[:12]) for _ in range(rng.randint(1, 6))]
+            st = {}
+            for n in names:
+                st[n] = st.get(n, 0) + 1
+            ops, states = [], [[[a, b] for a, b in st.items()]]
+            for _ in range(rng.randint(1, 6)):
+                kind = rng.choice(["set", "del", "pop", "popitem", "clear", "setdefault", "update"])
+                if kind in ("del", "pop", "popitem") and not st:
+                    kind = "setdefault"
+                if kind == "set":
+                    op = ["set", rng.choice(gen_chains.REAL[:12]), rng.randint(1, 3)]
+                    st[op[1]] = op[2]
+                elif kind in ("del", "pop"):
+                    op = [kind, rng.choice(list(st))]
+                    del st[op[1]]
+                elif kind == "popitem":
+                    op = ["popitem"]
+                    st.popitem()
+                elif kind == "clear":
+                    op = ["clear"]
+                    st.clear()
+                elif kind == "setdefault":
+                    op = ["setdefault", rng.choice(gen_chains.REAL[:12]), rng.randint(1, 2)]
+                    st.setdefault(op[1], op[2])
+                else:
+                    op = ["update", [rng.choice(gen_chains.REAL[:12]) for _ in range(rng.randint(1, 3))]]
+                    for n in op[1]:
+                        st[n] = st.get(n, 0) + 1
+                ops.append(op)
+                states.append([[a, b] for a, b in st.items()])
+            cases.append({"kind": "dd", "ctor": "hist", "names": names, "ops": ops, "states": states})
         shapes = gen_chains.small_shapes(3, 2)
         if args.tier == "quick":
             shapes = rng.sample(shapes, min(300, len(shapes)))
@@ -266,6 +322,8 @@ def main():
         if k == "mode":
             m = f"(mk_mode {cq(c['bf'])} (dd_of_list {clist([cstr(n) for n in c['names']])}) " + clist([f"({cstr(a)}, {cval(v)})" for a, v in c["info"].items()]) + ")"
             return f"let m := {m} in VList [vcmode (mode_to_cm m); vmode (mode_of_cm (mode_to_cm m))]"
+        if k == "dd" and c["ctor"] == "hist":
+            return "VList " + clist(["vdd_obs (dd_of_zmap " + clist([f"({cstr(a)}, {cz(b)})" for a, b in stt]) + ")" for stt in c["states"]])
         if k == "dd":
             if c["ctor"] == "string":
                 return f"vdd_obs (dd_of_string {cstr(c['text'])})"
